@@ -8,6 +8,23 @@ implies(a,b), ite(c,a,b), exc (the raised exception in a raises-clause), ghost.<
 """
 from __future__ import annotations
 
+class F(str):
+    """A contract clause that belongs to a FACET: a named group of (heavy) clauses that is verified in a pass of its
+    own.  The base pass verifies the untagged clauses; pass `f` ASSUMES the untagged clauses of the function (proved by
+    the base pass) together with the clauses of facet f, and generates obligations for the clauses of facet f only.
+    Callee clauses tagged with another facet are not assumed in this pass.  Every pass is a sound verification of a
+    weaker contract; the union of the passes covers every clause - each solver query stays small."""
+
+    def __new__(cls, facet, text):
+        o = super().__new__(cls, text)
+        o.facet = facet
+        return o
+
+
+def facet_of(clause):
+    return getattr(clause, "facet", None)
+
+
 REG = {"contracts": {}, "classes": {}, "invariants": {}, "lemmas": {}, "specs": {}, "ghosts": {}, "stmts": {},
        "disk_schema": {}, "ghost_functions": {}}
 
@@ -56,6 +73,9 @@ class Contract:
         # exceptions may only come out of callees: a `raise` statement of the function's own body must be unreachable
         # (unless one of its `raises` entries describes it)
         self.no_own_raise = kw.pop("no_own_raise", False)
+        # the whole function is verified in ONE pass, that of this facet (all obligation kinds; callee clauses of the
+        # facet are assumed): for functions that are entirely about one facet, e.g. the checkpoint round-trip theorem
+        self.only_facet = kw.pop("only_facet", None)
         if kw:
             raise TypeError(f"unknown contract keys {list(kw)} for {key}")
 
@@ -132,8 +152,9 @@ def ghost_var(name, type_):
 
 
 class StmtContract:
-    def __init__(self, key, match, ensures, label, props=()):
+    def __init__(self, key, match, ensures, label, props=(), facet=None):
         self.key, self.match, self.ensures, self.label, self.props = key, match, list(ensures), label, list(props)
+        self.facet = facet
 
 
 def stmt_contract(key, match, ensures, label, **kw):
